@@ -83,6 +83,8 @@ def rows : List Row := [
   -- site is the `evaluate__…` method of whichever function received it
   ⟨"F03k", "TypeError", ":evaluate__*", fnItemSyms, 0⟩,
   ⟨"F03k", "AttributeError", ":evaluate__*", fnItemSyms, 0⟩,
+  ⟨"F03k", "TypeError", ":select__*", fnItemSyms, 0⟩,
+  ⟨"F03k", "AttributeError", ":select__*", fnItemSyms, 0⟩,
   ⟨"F03k", "AttributeError", "xpath_tokens/base.py:adjust_datetime", fnItemSyms, 0⟩,
   ⟨"F03k", "TypeError", "regex/patterns.py:translate_pattern", fnItemSyms, 0⟩,
   -- F03h: numeric / temporal overflow and runaway computations are not caught
